@@ -347,15 +347,19 @@ def tlc_simulate(ctx, module, cfg_text, name, num, depth=150, workers=None,
     return res
 
 
-def apalache(ctx, module, inv, name, timeout=600):
-    """Run apalache-mc check --length=0 on spec/<module>.tla with the invariant
-    inv; returns "ok" (invariant holds in every initial state), "violated", or
-    raises Infra."""
+def apalache(ctx, module, inv, name, timeout=600, init="Init", length=0,
+             cinit=None):
+    """Run apalache-mc check on spec/<module>.tla with the (state or action)
+    invariant inv from the states of init for length steps; returns "ok",
+    "violated", or raises Infra."""
     d = _spec_copy(ctx)
     outdir = os.path.join(ctx.tmp, "apalache-" + name)
-    cmd = ["timeout", str(timeout), "apalache-mc", "check", "--init=Init",
-           "--next=Next", "--inv=" + inv, "--length=0", "--out-dir=" + outdir,
-           module + ".tla"]
+    cmd = ["timeout", str(timeout), "apalache-mc", "check", "--init=" + init,
+           "--next=Next", "--inv=" + inv, "--length=%d" % length,
+           "--out-dir=" + outdir]
+    if cinit:
+        cmd.append("--cinit=" + cinit)
+    cmd.append(module + ".tla")
     p = subprocess.run(cmd, cwd=d, capture_output=True, text=True)
     out = p.stdout + p.stderr
     shutil.rmtree(outdir, ignore_errors=True)
